@@ -1215,6 +1215,105 @@ def opc10_handler_queue_order(ctx: Ctx) -> None:
 
 
 # --------------------------------------------------------------------- OPC-9 UNPACK_EX oparg decoding
+def opc11_step_semantics(ctx: Ctx) -> None:
+    """OPC-11 each case of the `as`-target decoder has the stack effect of the opcode it stands for, operand order included.
+    The loop body of next_target is evaluated abstractly (engine MINI: symbolic operands on the decoder's list, the integers
+    of the instruction at hand) for one instruction of every opname that has a case, and the resulting list is compared with
+    the opcode's documented effect (dis: TOS is the index and TOS1 the container for *_SUBSCR; CALL n has the callable below
+    its n arguments, first argument deepest; UNPACK_* is followed by its targets first-to-last; ...).  A store sequence must
+    end the walk, a load must not"""
+    from ..minieval import Mini, Raised, Unsupported
+    from types import SimpleNamespace
+    mod = ctx.P.mod("_lowlevel")
+    nt = mod.fn("describe_assignment_target.next_target")
+    outer = mod.fn("describe_assignment_target")
+    loops = [w for w in walk_scope(nt) if isinstance(w, ast.While) and any(isinstance(n, ast.If) and opname_literals(n.test) for n in ast.walk(w))]
+    if len(loops) != 1:
+        ctx.R.undecided("OPC-11", f"{len(loops)} instruction loops in next_target (1 expected)")
+        return
+    loop = loops[0]
+    names: Set[str] = set()
+    for n in ast.walk(loop):
+        if isinstance(n, ast.If) and not (n.body and isinstance(n.body[-1], ast.Raise)):
+            for _, nms in opname_literals(n.test):
+                names.update(nms)
+    helpers = {h.name: h for h in walk_scope(outer) if isinstance(h, ast.FunctionDef) and h is not nt}
+    for h in ast.walk(mod.tree):
+        if isinstance(h, ast.FunctionDef) and mod.enclosing_def(h) is None and h.name not in helpers:
+            helpers[h.name] = h
+    ue = ctx.F["interp"][sorted(ctx.V.all)[0]]["unpack_ex"]["before1_after2"]
+    NAME = ("LOAD_GLOBAL", "LOAD_FAST", "LOAD_NAME", "LOAD_DEREF", "STORE_GLOBAL", "STORE_FAST", "STORE_NAME", "STORE_DEREF", "LOAD_FAST_CHECK", "LOAD_CLASSDEREF", "LOAD_FAST_AND_CLEAR", "LOAD_CLOSURE")
+    ATTR = ("LOAD_ATTR", "LOAD_METHOD", "LOOKUP_METHOD", "STORE_ATTR")
+    NOP = ("PRECALL", "CACHE", "PUSH_NULL", "EXTENDED_ARG", "NOP", "RESUME")
+    S = ["<s4>", "<s3>", "<s2>", "<s1>"]
+
+    def cases(op_: str):
+        """(description, insn fields, initial operands, expected operands)"""
+        if op_ in NAME:
+            yield "name", dict(argval="<name>", arg=1, argrepr="<name>"), S, S + ["<name>"]
+        elif op_ in ATTR:
+            yield "attribute of TOS", dict(argval="<attr>", arg=1, argrepr="<attr>"), S, S[:-1] + ["<s1>.<attr>"]
+        elif op_ == "LOAD_CONST":
+            yield "constant", dict(argval=7, arg=0, argrepr="<const>"), S, S + ["<const>"]
+        elif op_ in ("BINARY_SUBSCR", "STORE_SUBSCR"):
+            yield "TOS1[TOS]", dict(argval=None, arg=None, argrepr=""), S, S[:-2] + ["<s2>[<s1>]"]
+        elif op_ in ("BINARY_SLICE", "STORE_SLICE"):
+            yield "TOS2[TOS1:TOS]", dict(argval=None, arg=None, argrepr=""), S, S[:-3] + ["<s3>[<s2>:<s1>]"]
+        elif op_ in ("CALL_FUNCTION", "CALL_METHOD", "CALL"):
+            for k in (0, 1, 2, 3):
+                a = [f"<a{i + 1}>" for i in range(k)]
+                yield f"{k} positional arguments", dict(argval=k, arg=k, argrepr=""), ["<x>", "<f>"] + a, ["<x>", "<f>(" + ", ".join(a) + ")"]
+        elif op_ == "UNPACK_SEQUENCE":
+            yield "1 target", dict(argval=1, arg=1, argrepr=""), S, S + ["(<t1>,)"]
+            yield "3 targets", dict(argval=3, arg=3, argrepr=""), S, S + ["(<t1>, <t2>, <t3>)"]
+        elif op_ == "UNPACK_EX":
+            yield "a, *b, c, d", dict(argval=ue, arg=ue, argrepr=""), S, S + ["(<t1>, *<t2>, <t3>, <t4>)"]
+        elif op_ == "DUP_TOP":
+            yield "duplicate TOS", dict(argval=None, arg=None, argrepr=""), S, S + ["<s1>"]
+        elif op_ == "POP_TOP":
+            yield "drop TOS", dict(argval=None, arg=None, argrepr=""), S, S[:-1]
+        elif op_ in NOP:
+            yield "no operand effect", dict(argval=None, arg=0, argrepr=""), S, S
+
+    n_ok = 0
+    for op_ in sorted(names):
+        cs = list(cases(op_))
+        if not cs:
+            ctx.R.ok("OPC-11", f"{op_}: no reference effect in the table", "not compared")
+            continue
+        for desc, fields, init, want in cs:
+            counter = [0]
+
+            def fresh() -> str:
+                counter[0] += 1
+                return f"<t{counter[0]}>"
+            insn = SimpleNamespace(opname=op_, offset=0, starts_line=None, is_jump_target=False, opcode=0, **fields)
+            stack = list(init)
+            m = Mini({"insns": [insn, insn], "idx": 0, "stack": stack, "insn": insn, "True": True}, dict(helpers), {nt.name: fresh})
+            try:
+                ctl = m.run(loop.body)
+                got = m.env.get("stack")
+            except Raised as ex:
+                ctx.R.fail("OPC-11", mod, loop, f"the decoder's case for {op_} ({desc}) raises {ex.kind} on a well-formed operand stack {init}: the target is not rendered although the opcode has a case",
+                           construct=f"{op_} ({desc}) raises")
+                continue
+            except Unsupported as ex:
+                ctx.R.undecided("OPC-11", f"{op_} ({desc}): the case uses an operation outside the evaluator's fragment: {ex}")
+                continue
+            ends = op_.startswith(("STORE_", "UNPACK_"))
+            if got != want:
+                ctx.R.fail("OPC-11", mod, loop, f"the decoder's case for {op_} ({desc}) turns the operands {init} into {got}; the opcode's effect is {want}: the rendered target is not the expression "
+                           "that was compiled (varname is wrong, not merely absent)", construct=f"{op_} ({desc}): {got[-1] if got else got} instead of {want[-1] if want else want}")
+            elif (ctl == "break") != ends:
+                ctx.R.fail("OPC-11", mod, loop, f"after {op_} the decoder {'continues with the following instructions' if ends else 'stops'}: a target's store sequence ends exactly at its STORE_* / after the targets "
+                           "of its UNPACK_*", construct=f"{op_}: end of the store sequence")
+            else:
+                n_ok += 1
+                ctx.R.ok("OPC-11", f"{op_} ({desc}): {init[-3:]} -> {got[-2:]}", "matches the opcode's stack effect; " + ("ends the sequence" if ends else "continues"))
+    if n_ok < 20 and not any(e_.startswith("OPC-11") for e_ in ctx.R.errors):
+        raise AnalysisError(f"OPC-11: only {n_ok} opcode cases evaluated")
+
+
 def opc9_unpack_ex(ctx: Ctx) -> None:
     """OPC-9 the starred target of `with cm as (a, *b, c)` is rendered at the position the compiler encodes: the count of
     targets *before* the star is the byte of UNPACK_EX's oparg that the compilers of all supported interpreters put it in
@@ -1365,6 +1464,19 @@ def opc6_exit_templates(ctx: Ctx) -> None:
                         for cc in ast.walk(x):
                             if isinstance(cc, ast.Compare):
                                 tested |= set(opnames_in(cc))
+                    # EXTENDED_ARG is a prefix glued to the instruction it extends (here the LOAD_CONST that starts the window):
+                    # on the way back it is met before any optional filler that precedes the window
+                    order = [opnames_in(x.test) for x in after if isinstance(x, (ast.While, ast.If)) and any(isinstance(y, ast.AugAssign) and norm(y.target) == "offs" for y in x.body)]
+                    ext_i = [i for i, o_ in enumerate(order) if "EXTENDED_ARG" in o_]
+                    fill_i = [i for i, o_ in enumerate(order) if o_ and "EXTENDED_ARG" not in o_]
+                    if ext_i and fill_i:
+                        if min(fill_i) < min(ext_i):
+                            bad_x = [x for x in after if isinstance(x, (ast.While, ast.If)) and opnames_in(x.test) == order[min(fill_i)]][0]
+                            ctx.R.fail("OPC-6", mod, bad_x, f"CPython {v}: walking back from the window, the matcher skips {order[min(fill_i)][0]} before it skips EXTENDED_ARG; EXTENDED_ARG is the prefix of the "
+                                       f"{names[0]} that starts the window, so it is met first: with a prefix present the filler test sees EXTENDED_ARG, nothing is skipped in the right order and POP_BLOCK is not "
+                                       "reached (the exiting manager of a `return <expr>` exit is lost in code objects whose None constant has index >= 256)", construct=f"{v}: filler skipped before EXTENDED_ARG")
+                        else:
+                            ctx.R.ok("OPC-6", f"{v}: EXTENDED_ARG prefixes are skipped before the optional {order[min(fill_i)][0]}")
                     for tname, seq in T[v].items():
                         if not tname.endswith("/sync"):
                             continue
